@@ -339,6 +339,47 @@ macro_rules! run_loader {
     };
 }
 
+/// MemCase::encase / From<S>: a structure built in memory with the `None` backend
+fn run_encase(ty: &str, n: usize, ops: &[&str]) -> Value {
+    let v64: Vec<u64> = (0..n as u64).map(|i| i.wrapping_mul(0x9E3779B97F4A7C15) ^ 0xA5).collect();
+    let name: String = "héllo🔥".chars().cycle().take(n % 11).collect();
+    CANARY_DROPS.store(0, SeqCst);
+    let mut o = Obs::default();
+    let heap0 = live();
+    let maps0 = nmaps() as i64;
+    mark(format_args!("load"));
+    let r = catch_unwind(AssertUnwindSafe(|| {
+        let o = &mut o;
+        match ty {
+            "vec64" => { let d = v64.digest(); let mc = MemCase::encase(v64.clone()); observe_case(Ok(mc), 0, ops, d, o) }
+            "doc" => {
+                let x = Doc { id: 42, data: v64.clone(), name: name.clone(), tail: vec![1u16, 2, 3] };
+                let d = x.digest();
+                let mc: MemCase<Doc<Vec<u64>, String>> = x.into();
+                observe_case(Ok(mc), 0, ops, d, o)
+            }
+            _ => { let c = Canary { id: 9, data: v64.clone() }; let d = c.digest(); let mc = MemCase::encase(c); observe_case(Ok(mc), 0, ops, d, o) }
+        }
+    }));
+    let did_panic = r.is_err();
+    drop(r);
+    if did_panic { mark(format_args!("loaded:panic")); mark(format_args!("dropped")); }
+    let canary_drops = CANARY_DROPS.load(SeqCst);
+    let canary_valid = CANARY_SEEN.load(SeqCst) == v64.peek();
+    drop(v64);
+    json!({
+        "file_len": 0, "store_exact": true,
+        "res": if did_panic { "panic" } else { o.res }, "msg": Value::Null,
+        "region": if o.has_region { json!({"cap": o.cap, "res64": o.res64, "res4096": o.res4096, "tail_zero": o.tail_zero}) } else { Value::Null },
+        "digest_ok": o.digest_ok, "digests": o.digests[..o.ndig].to_vec(),
+        "digest_stable": o.digests[..o.ndig].iter().all(|d| *d == o.digests[0]),
+        "all_inside": o.all_inside, "region_mapped_after_drop": o.region_mapped_after_drop,
+        "heap_after_load": o.heap1 - heap0, "maps_after_load": o.maps1 - maps0,
+        "heap_after_drop": o.heap2 - heap0, "maps_after_drop": o.maps2 - maps0,
+        "canary_drops": canary_drops, "canary_saw_valid_data": canary_valid, "big_res128": 0,
+    })
+}
+
 pub fn run_case(case: &Value, dir: &std::path::Path) -> Value {
     let loader = case["loader"].as_str().unwrap();
     let ty = case["ty"].as_str().unwrap();
@@ -350,6 +391,9 @@ pub fn run_case(case: &Value, dir: &std::path::Path) -> Value {
     let ops_owned: Vec<String> = case["ops"].as_array().map(|a| a.iter().map(|x| x.as_str().unwrap().to_string()).collect()).unwrap_or_default();
     let ops: Vec<&str> = ops_owned.iter().map(|s| s.as_str()).collect();
     mark(format_args!("case:{}", case["i"].as_u64().unwrap_or(0)));
+    if loader == "encase" {
+        return run_encase(ty, n, &ops);
+    }
     let (path, file_len, digest) = make_file(dir, ty, n, cause, cut, prior);
     let mut store_exact = true;
     if cause == "valid" {
